@@ -221,7 +221,7 @@ def run(ctx):
 
     def stage_m():   # (M) the reference against the standard's own lemmas
         ctx.model_check("MC_MLDSAArith", cfg="MC_MLDSAArith_full" if ctx.thorough else "MC_MLDSAArith", must_cover=False,
-                        workers=8 if ctx.thorough else 2, heap="8g" if ctx.thorough else "3g", timeout=2400)
+                        workers=1, heap="6g" if ctx.thorough else "3g", timeout=2400)
 
     def stage_arith():   # (T) scalar / polynomial / packing / sampling layers
         mm, n = ctx.validate_events(ARITH, arith, shards=16, timeout=2400)
